@@ -16,6 +16,7 @@ exceptional outcome that is routed through try/except, contextlib.suppress, fina
 from __future__ import annotations
 
 import ast
+import re
 import copy
 from dataclasses import dataclass, field
 from typing import Callable, Iterable
@@ -67,6 +68,8 @@ def exc_matches(kind: str, handler: str) -> bool:
         "BaseException",
     ) else handler
     base = base.split(".")[-1] if base.split(".")[-1] in EXC_PARENTS else base
+    if handler == "BaseException":
+        return True  # whatever was raised
     if handler in ERRNO_CLASSES:
         if base == handler:
             return True
@@ -153,7 +156,7 @@ class Path:
 
 
 class St:
-    __slots__ = ("env", "val", "evs", "selfcls", "fn", "depth", "exc", "frames", "module", "last_func", "selfpath", "last_orig")
+    __slots__ = ("env", "val", "evs", "selfcls", "fn", "depth", "exc", "frames", "module", "last_func", "selfpath", "last_orig", "fnode")
 
     def __init__(self):
         self.env: dict[str, ast.expr] = {}
@@ -168,6 +171,7 @@ class St:
         self.last_func = ""
         self.last_orig = None
         self.selfpath = "self"  # how the frame's `self` is reached from the entry function's self (display / identity)
+        self.fnode = None  # the function definition the current frame executes (annotations of its locals)
 
     def fork(self) -> "St":
         s = St()
@@ -183,6 +187,7 @@ class St:
         s.last_func = self.last_func
         s.selfpath = self.selfpath
         s.last_orig = self.last_orig
+        s.fnode = self.fnode
         return s
 
 
@@ -195,6 +200,7 @@ class Cfg:
     freeze_locals = False
     record_subscripts = True
     exact_last_iteration = False  # while loops: splice the last, normally ending iteration in (flags set by it stay known)
+    desugar_next_search = False  # next((E for x in it if c), d) is run as the search loop it abbreviates (first match, else d)
 
     def is_shared_read(self, text: str, st: "St") -> bool:
         return True
@@ -432,6 +438,7 @@ class Enumerator:
         st.fn = fi.qualname
         st.frames = (f"{fi.qualname}@self",)
         st.module = fi.module
+        st.fnode = fi.node
         for a in fi.node.args.posonlyargs + fi.node.args.args + fi.node.args.kwonlyargs:
             st.env[a.arg] = ast.Name(a.arg, ast.Load())
         if bind:
@@ -534,6 +541,17 @@ class Enumerator:
                 continue
             f = t.func if isinstance(t, ast.Call) else t
             kind = dotted(f) or "Exception"
+            if not isinstance(t, ast.Call):
+                # `raise <variable>`: an exception caught earlier (`except E as e`), possibly kept in a local across a loop
+                caught = re.findall(r"\$exc<([^>]+)>", render(t))
+                if caught:
+                    kind = caught[0]
+                elif isinstance(s.exc, ast.Name) and st2.fnode is not None:
+                    anns = [n.annotation for n in ast.walk(st2.fnode) if isinstance(n, ast.AnnAssign) and isinstance(n.target, ast.Name) and n.target.id == s.exc.id]
+                    names = [x.id for a in anns for x in ast.walk(a) if isinstance(x, ast.Name) and (x.id in EXC_PARENTS or x.id.endswith(("Error", "Exception")))]
+                    kind = names[0] if names else "Exception"
+                else:
+                    kind = "Exception"
             if isinstance(t, ast.Call) and kind.split(".")[-1] in ("OSError", "IOError") and t.args:
                 d = dotted(t.args[0]) or ""
                 if d.startswith("errno."):
@@ -879,6 +897,21 @@ class Enumerator:
             if exc:
                 out.append((st1, ("raise", exc)))
                 continue
+            # the iterable evaluated to a generator expression (e.g. a helper returned one): it is consumed lazily, element by element,
+            #   for t in (E for x in it if c): body   ==   for x in it: if c: t = E ; body
+            if isinstance(it, ast.GeneratorExp) and not isinstance(s.iter, ast.GeneratorExp) and len(it.generators) == 1 and not it.generators[0].is_async and not s.orelse and st1.depth < self.cfg.max_inline_depth:
+                g0 = it.generators[0]
+                inner_body: list[ast.stmt] = [ast.Assign([s.target], it.elt)] + list(s.body)
+                for c in reversed(g0.ifs):
+                    inner_body = [ast.If(c, inner_body, [])]
+                lazy_loop = ast.For(g0.target, g0.iter, inner_body, [], None)
+                ast.copy_location(lazy_loop, s)
+                for sub in ast.walk(lazy_loop):
+                    if not hasattr(sub, "lineno"):
+                        ast.copy_location(sub, s)
+                ast.fix_missing_locations(lazy_loop)
+                out.extend(self.exec_block([lazy_loop], st1))
+                continue
             # a local / parameter bound to a list display that nothing has touched since reads as that display
             if isinstance(it, ast.Name) and isinstance(st1.env.get(it.id), (ast.List, ast.Tuple)):
                 it = st1.env[it.id]  # kept current by the engine: in-place changes update or drop it (see _do_call / _forget_displays)
@@ -1118,8 +1151,14 @@ class Enumerator:
                 self._kill_atoms(st2, text)
                 if isinstance(term, ast.Name) and isinstance(st2.env.get(term.id), ast.List):
                     st2.env[term.id] = ast.Name(term.id, ast.Load())  # the list is now reachable through the attribute as well
-                if isinstance(term, (ast.Constant, ast.Name)) and not aug:
-                    st2.env[text] = term  # only plain values flow through attributes (identity matters for anything computed)
+                mod_const = isinstance(term, ast.Attribute) and (dotted(term) or "").split(".")[0] in getattr(st2.module, "imports", {}) and (dotted(term) or "").split(".")[0] not in st2.env
+                if (isinstance(term, (ast.Constant, ast.Name)) or mod_const) and not aug:
+                    # only plain values flow through attributes (identity matters for anything computed): constants, names, and
+                    # constants of an imported module (`self._flags = re.IGNORECASE`)
+                    st2.env[text] = term
+                elif isinstance(term, ast.Tuple) and not aug and not any(isinstance(x, ast.Starred) for x in term.elts):
+                    # ... and tuple displays (immutable: `self._fds = (a, b, c)` followed by `x, y, z = self._fds` reads a, b, c)
+                    st2.env[text] = term
                 else:
                     st2.env.pop(text, None)
                 self.emit(st2, "store", f"{text} = {render(term)}", stmt, target=text, attr=tgt.attr, recv=render(recv), value=render(term), term=term)
@@ -1181,6 +1220,8 @@ class Enumerator:
                     return out[e.id]
                 if e.id in module.imports and counts.get(e.id, 0) == 0:
                     return e
+                if e.id in module.classes and counts.get(e.id, 0) == 1:
+                    return e  # a class of the module (its constants are read through it)
                 if counts.get(e.id, 0) == 1 and isinstance(module.consts.get(e.id), ast.Constant) and isinstance(module.consts[e.id].value, (str, bytes, int)):
                     return e  # a named literal constant of the module: kept by name (the name is what rules read)
                 return None
@@ -1400,7 +1441,18 @@ class Enumerator:
             it0 = st.env[it0.id]
         # (a filter over a literal display selects among known elements; a plain map over one is left as the term it is)
         over_display = len(e.generators) == 1 and bool(e.generators[0].ifs) and isinstance(it0, (ast.List, ast.Tuple)) and 0 < len(it0.elts) <= 8 and not any(isinstance(x, ast.Starred) for x in it0.elts)
-        if any(g.is_async for g in e.generators) or not (over_display or (st.depth < self.cfg.max_inline_depth and any(self._would_inline(c, st) for c in inner))):
+        # ... and so does one whose element or filter reads the object's state through a call or a subscript (`self.m.get(k)`, `self.m[k]`):
+        # built eagerly, it reads that state for *all* elements now, before whoever consumes the list does anything
+        # (per element: the read involves the comprehension's own variable; a loop-invariant read is just a value)
+        bound = {n.id for g in e.generators for n in ast.walk(g.target) if isinstance(n, ast.Name)}
+        reads_state = any(
+            isinstance(n, (ast.Call, ast.Subscript))
+            and re.search(r"\bself\.\w+", render(n.func if isinstance(n, ast.Call) else n.value))
+            and any(isinstance(x, ast.Name) and x.id in bound for a in (list(n.args) + [k.value for k in n.keywords] if isinstance(n, ast.Call) else [n.slice]) for x in ast.walk(a))
+            for part in [e.elt] + [c for g in e.generators for c in g.ifs]
+            for n in ast.walk(part)
+        )
+        if any(g.is_async for g in e.generators) or not (over_display or reads_state or (st.depth < self.cfg.max_inline_depth and any(self._would_inline(c, st) for c in inner))):
             return self._e_comp(e, st)
         name = f"_lc{getattr(e, 'lineno', 0)}_{getattr(e, 'col_offset', 0)}"
         body: list[ast.stmt] = [ast.Expr(ast.Call(ast.Attribute(ast.Name(name, ast.Load()), "append", ast.Load()), [e.elt], []))]
@@ -1524,9 +1576,36 @@ class Enumerator:
                 raise AnalysisError(f"any()/all() at line {getattr(e, 'lineno', '?')} leaves by {o[0]}")
         return out
 
+    def _e_next_search(self, e: ast.Call, st: St):
+        """next((E for x in it if c), d): `_nxN = d; for x in it: if c: _nxN = E; break` -- evaluates to the first match or d."""
+        comp = e.args[0]
+        name = f"_nx{getattr(e, 'lineno', 0)}_{getattr(e, 'col_offset', 0)}"
+        body: list[ast.stmt] = [ast.Assign([ast.Name(name, ast.Store())], comp.elt), ast.Break()]
+        g = comp.generators[0]
+        for c in reversed(g.ifs):
+            body = [ast.If(c, body, [])]
+        stmts: list[ast.stmt] = [ast.Assign([ast.Name(name, ast.Store())], e.args[1]), ast.For(g.target, g.iter, body, [], None)]
+        for n in stmts:
+            ast.copy_location(n, e)
+            for sub in ast.walk(n):
+                if not hasattr(sub, "lineno"):
+                    ast.copy_location(sub, e)
+            ast.fix_missing_locations(n)
+        out = []
+        for s2, o in self.exec_block(stmts, st):
+            if o is NORMAL:
+                out.append((s2, s2.env.get(name, ast.Name(name, ast.Load())), None))
+            elif o[0] == "raise":
+                out.append((s2, e, o[1]))
+            else:
+                raise AnalysisError(f"next() search at line {getattr(e, 'lineno', '?')} leaves by {o[0]}")
+        return out
+
     def e_Call(self, e: ast.Call, st: St):
         out = []
         f = e.func
+        if self.cfg.desugar_next_search and isinstance(f, ast.Name) and f.id == "next" and f.id not in st.env and len(e.args) == 2 and not e.keywords and isinstance(e.args[0], ast.GeneratorExp) and len(e.args[0].generators) == 1 and e.args[0].generators[0].ifs and not e.args[0].generators[0].is_async:
+            return self._e_next_search(e, st)
         if isinstance(f, ast.Name) and f.id in ("any", "all") and f.id not in st.env and len(e.args) == 1 and not e.keywords and isinstance(e.args[0], (ast.GeneratorExp, ast.ListComp)) and st.depth < self.cfg.max_inline_depth and not any(g.is_async for g in e.args[0].generators):
             comp = e.args[0]
             inner = [n for part in [comp.elt] + [c for g in comp.generators for c in g.ifs] for n in ast.walk(part) if isinstance(n, ast.Call)]
@@ -1644,6 +1723,7 @@ class Enumerator:
         fd = fi.node
         saved_env, saved_fn, saved_cls, saved_depth, saved_frames, saved_mod = st.env, st.fn, st.selfcls, st.depth, st.frames, st.module
         saved_path = st.selfpath
+        saved_fnode = st.fnode
         if selfterm is not None:
             rt = render(selfterm)
             st.selfpath = rt if saved_path == "self" else (saved_path + rt[4:] if rt.startswith("self") else rt)
@@ -1699,6 +1779,7 @@ class Enumerator:
         env.update(bound)
         self.emit(st, "inline", fi.qualname, orig, func=render(call.func), cls=selfcls)
         st.env, st.fn, st.selfcls, st.depth, st.frames, st.module = env, fi.qualname, selfcls, st.depth + 1, st.frames + (f"{fi.qualname}@{st.selfpath}",), fi.module
+        st.fnode = fd
         mark = len(st.evs)
         res = self.exec_block(fd.body, st)
         out = []
@@ -1747,6 +1828,7 @@ class Enumerator:
                     if k.startswith("self."):
                         new_env[k] = v
             s2.env, s2.fn, s2.selfcls, s2.depth, s2.frames, s2.module = new_env, saved_fn, saved_cls, saved_depth, saved_frames, saved_mod
+            s2.fnode = saved_fnode
             s2.selfpath = saved_path
             self.emit(s2, "inline_end", fi.qualname, orig)
             if o[0] == "return":
@@ -1878,6 +1960,15 @@ class Enumerator:
             text, neg = text[1:], not neg
         if text in st.val:
             return [(st, st.val[text] != neg)]
+        # an element of the current iteration (or a frozen local) that was subscripted on this path is not None: had it been, the
+        # subscript would have raised (`e = next((e for e in X if p(e[0])), None); if e is None:` after the search found one)
+        if text.endswith(" is None") and (text.startswith("$elem(") or re.fullmatch(r"\w+' is None", text)):
+            subj = text[: -len(" is None")]
+            for ev in reversed(st.evs):
+                if ev.kind in ("loop", "final_iter") and subj.startswith("$elem("):
+                    break
+                if ev.kind == "subscript" and ev.extra.get("container") == subj:
+                    return [(st, False != neg)]
         out = []
         for truth in (True, False):
             s2 = st.fork()
@@ -1898,6 +1989,9 @@ class Enumerator:
         if eno is None:
             return None
         comp = t.comparators[0]
+        # `frozenset({...})` / `tuple([...])` / `set((...))` around a display of errno names is that display
+        while isinstance(comp, ast.Call) and isinstance(comp.func, ast.Name) and comp.func.id in ("frozenset", "set", "tuple", "list") and len(comp.args) == 1 and not comp.keywords:
+            comp = comp.args[0]
         names = []
         if isinstance(t.ops[0], ast.Eq):
             names = [dotted(comp) or ""]
